@@ -372,7 +372,8 @@ def root_bookkeeping(ctx):
                     names = {a[1] for a in rel.prov.atoms(rl, interproc=False) if a[0] == "localname"}
                     removed_sets[k] = (rl, names)
             ctx.check(bool(rem), f"{lab}/Ok.{k}", [site(rel, b) for b in rem] or [rel.loc(min(R))],
-                      f"an Ok{{{k}}} addressed to Root does not remove the target from the unavailable-roots set on every path: the run would never be considered complete", props=["C04", "C08"])
+                      f"an Ok{{{k}}} addressed to Root does not remove the target from the unavailable-roots set on every path: the run would never be considered complete (or, counted instead of recorded per target, be considered complete too early)",
+                      props=["C04", "C08"] + (["C11"] if k == "Service" else []))
             whole = [bb for bb in rem if re.search(r"HashSet::<[\w:&' ]*TargetId[,>]", callee_decl(rel.term(bb)))]
             if rem:
                 ctx.check(len(whole) == len(rem), f"{lab}/Ok.{k}/whole-identity", [site(rel, b) for b in rem],
@@ -557,7 +558,7 @@ def start_live(ctx):
             extra = conditions_within(conds, [(lambda d: d[0] == "call" and d[1] in names, True), (lambda d: d[0] == "call" and d[1].endswith("::is_none"), True), (lambda d: d[0] == "call" and d[1].endswith("::is_some"), False)])
             # the exit condition of a small loop that precedes the start (draining a queue: `while rx.try_recv().is_ok() {}`) is passed sooner or later, it does
             # not make the start depend on anything
-            inner_loops = [(h_, blks_) for (h_, blks_, ex_) in a.natural_loops() if bb not in blks_ and len(blks_) <= 12]
+            inner_loops = [(h_, blks_) for (h_, blks_, ex_) in a.natural_loops() if bb not in blks_ and len(blks_) <= 40]
             extra = [(e, descs, pol) for (e, descs, pol) in extra if not any(e.src in blks_ and e.dst not in blks_ for (h_, blks_) in inner_loops)]
             ctx.check(not extra, f"{r.actor_label(a)}/{short(callee_base(t))}", [site(a, bb)], "a start site is guarded by a condition beyond readiness / not-in-flight: " + fmt_conds(extra))
 
